@@ -17,7 +17,13 @@ Inductive ccmd :=
 | CSubscribe (k : str) (unique live : bool) | CPSubscribe (p : str) (unique live : bool) (agg : option N)
 | CUnsubscribe (tid : N) | CUnsubscribeAsync (tid : N)
 | CSubscribeLs (parent : option str) | CUnsubscribeLs (tid : N) | CUnsubscribeLsAsync (tid : N)
-| CLock (k : str) | CReleaseLock (k : str).
+| CLock (k : str) | CReleaseLock (k : str)
+(* the remaining fire-and-forget variants: the caller gets the transaction id at once, no callback is filed *)
+| CCSetAsync (k : str) (v : json) (ver : N) | CSPubInitAsync (k : str) | CSPubAsync (tid : N) (v : json)
+| CPublishAsync (k : str) (v : json) | CCGetAsync (k : str) | CPGetAsync (p : str)
+| CDeleteAsync (k : str) | CPDeleteAsync (p : str) (quiet : bool) | CLsAsync (parent : option str) | CPLsAsync (parent : option str)
+| CSubscribeAsync (k : str) (unique live : bool) | CPSubscribeAsync (p : str) (unique live : bool) (agg : option N)
+| CSubscribeLsAsync (parent : option str) | CLockAsync (k : str) | CReleaseLockAsync (k : str).
 
 Definition cbmap := list (N * N).        (* transaction id -> call *)
 
@@ -85,6 +91,21 @@ Definition on_cmd (c : cstate) (call : N) (cmd : ccmd) : cstate * cmsg * ticket 
        MUnsubscribeLs tid, Ticket tid)
   | CLock k => (with_ack, MLock t k, NoTicket)
   | CReleaseLock k => (with_ack, MReleaseLock t k, NoTicket)
+  | CCSetAsync k v ver => (plain, MCSet t k v ver, Ticket t)
+  | CSPubInitAsync k => (plain, MSPubInit t k, Ticket t)
+  | CSPubAsync tid v => (plain, MSPub tid v, Ticket tid)
+  | CPublishAsync k v => (plain, MPublish t k v, Ticket t)
+  | CCGetAsync k => (plain, MCGet t k, Ticket t)
+  | CPGetAsync p => (plain, MPGet t p, Ticket t)
+  | CDeleteAsync k => (plain, MDelete t k, Ticket t)
+  | CPDeleteAsync p q => (plain, MPDelete t p (Some q), Ticket t)
+  | CLsAsync parent => (plain, MLs t parent, Ticket t)
+  | CPLsAsync parent => (plain, MPLs t parent, Ticket t)
+  | CSubscribeAsync k u l => (plain, MSubscribe t k u (Some l), Ticket t)
+  | CPSubscribeAsync p u l agg => (plain, MPSubscribe t p u agg (Some l), Ticket t)
+  | CSubscribeLsAsync parent => (plain, MSubscribeLs t parent, Ticket t)
+  | CLockAsync k => (plain, MLock t k, Ticket t)
+  | CReleaseLockAsync k => (plain, MReleaseLock t k, Ticket t)
   end.
 
 (* what reaches the application *)
